@@ -18,6 +18,8 @@
 import RbpfModel.Lemmas.X86Sim.Entry
 import RbpfModel.Lemmas.X86Sim.EntryC
 import RbpfModel.Lemmas.X86Sim.EntryFixed
+import RbpfModel.Lemmas.X86Sim.EntryD
+import RbpfModel.Lemmas.X86Sim.CoveredOfCheck
 import RbpfModel.Lemmas.X86Enc.Layout
 import RbpfModel.Lemmas.X86Enc.Targets
 import RbpfModel.Lemmas.X86Enc.Size
@@ -146,7 +148,7 @@ theorem C03_x86_calls (env : Env) (haddr : Nat → Option Nat) (um : Bool) (c : 
     (hacc : Verifier.check env.prog = .ok)
     (hcomp : JitEmit.compileWithLayout env.prog haddr um false = .ok (c.code, locs, ex))
     (hext : ExtOk c env haddr)
-    (hcov : CoveredC env.prog) (hl : NoLocalCall env.prog) (h7 : NoF7 env.prog)
+    (hl : NoLocalCall env.prog) (h7 : NoF7 env.prog)
     (hbase : c.codeBase + c.code.size < 2 ^ 63)
     (hsent : c.retSentinel.toNat < c.codeBase ∨ c.codeBase + c.code.size ≤ c.retSentinel.toNat)
     (he : Entry c m σ) (hlog : σ.log = []) (halign : m.stack.base % 16 = 0)
@@ -176,7 +178,7 @@ theorem C03_x86_calls (env : Env) (haddr : Nat → Option Nat) (um : Bool) (c : 
   have ht := targetsOk_of_check env.prog haddr hacc
   have hv := compile_validates_partial env.prog haddr um false c.code locs ex hcomp hext.2 ht.1 (compile_size_lt _ _ _ _ _ _ _ hcomp ht.2) ht.2
   obtain ⟨k, σ', hrun, hmem, h3, h5, h13, h14, h15, hrsp, hlg, hmis⟩ :=
-    jit_call_to_returnC env haddr um c { pcLocs := locs, exitLoc := ex } m σ fuel r0 b hv hcov hext hbase hsent he hlog halign hjb
+    jit_call_to_returnC env haddr um c { pcLocs := locs, exitLoc := ex } m σ fuel r0 b hv (coveredC_of_check env.prog hacc hl) hext hbase hsent he hlog halign hjb
   refine ⟨k, σ', hrun, ?_, h3, h5, h13, h14, h15, hrsp, ?_, hmis⟩
   · exact DataRel.of_memRel hmem ⟨by rw [hbm.1, hsame], by rw [hbm.2.1, hsame], by rw [hbm.2.2, hsame]⟩
   · rw [hlg, hbl, hlogs]
@@ -193,7 +195,7 @@ theorem C03_x86_fixed (env : Env) (haddr : Nat → Option Nat) (c : X86.Cfg) (lo
     (hacc : Verifier.check env.prog = .ok)
     (hcomp : JitEmit.compileWithLayout env.prog haddr true true = .ok (c.code, locs, ex))
     (hext : ExtOk c env haddr)
-    (hcov : CoveredC env.prog) (hl : NoLocalCall env.prog) (h7 : NoF7 env.prog)
+    (hl : NoLocalCall env.prog) (h7 : NoF7 env.prog)
     (hbase : c.codeBase + c.code.size < 2 ^ 63)
     (hsent : c.retSentinel.toNat < c.codeBase ∨ c.codeBase + c.code.size ≤ c.retSentinel.toNat)
     (he : EntryFixed c m d e σ) (hlog : σ.log = []) (halign : m.stack.base % 16 = 0)
@@ -224,9 +226,57 @@ theorem C03_x86_fixed (env : Env) (haddr : Nat → Option Nat) (c : X86.Cfg) (lo
   have ht := targetsOk_of_check env.prog haddr hacc
   have hv := compile_validates_partial env.prog haddr true true c.code locs ex hcomp hext.2 ht.1 (compile_size_lt _ _ _ _ _ _ _ hcomp ht.2) ht.2
   obtain ⟨k, σ', hrun, hmem, h3, h5, h13, h14, h15, hrsp, hlg, hmis⟩ :=
-    jit_call_to_return_fixed env haddr c { pcLocs := locs, exitLoc := ex } m d e σ fuel r0 b hv hcov hext hbase hsent he hlog halign hjb
+    jit_call_to_return_fixed env haddr c { pcLocs := locs, exitLoc := ex } m d e σ fuel r0 b hv (coveredC_of_check env.prog hacc hl) hext hbase hsent he hlog halign hjb
   refine ⟨k, σ', hrun, ?_, h3, h5, h13, h14, h15, hrsp, ?_, hmis⟩
   · exact DataRel.of_memRel hmem ⟨by rw [hbm.1, hsame], by rw [hbm.2.1, hsame], by rw [hbm.2.2, hsame]⟩
   · rw [hlg, hbl, hlogs]
+
+/-- **Every accepted program: the machine code computes the JIT's register-transfer semantics.**  No restriction on
+    the program beyond acceptance by the default verifier — arithmetic, jumps, memory, helper calls, eBPF-to-eBPF calls
+    at any depth.  If the emitter model compiles `env.prog` to `c.code` and the machine is entered under the calling
+    convention with room on the native stack for `D` nested calls, then every run of `jitRunC` (the semantics of
+    `EngineSem`: sign-extended compare immediates, local calls that keep the frame pointer — findings F7 and F16 are
+    properties of the machine code, not of a model of it —, helper calls clobbering r1 … r5) from `entryState` that
+    returns `r0` within depth `D` is matched by the machine: it returns `r0`, leaves the eBPF-visible memory as that
+    run leaves it, makes the same helper calls in the same order with an aligned stack, restores the callee-saved
+    registers and pops the return address. -/
+theorem C03_x86_jit_semantics (env : Env) (haddr : Nat → Option Nat) (um : Bool) (c : X86.Cfg) (locs : Array Nat) (ex : Nat)
+    (m : Memory) (σ : X86.St) (D fuel : Nat) (r0 : BitVec 64) (s' : State)
+    (hacc : Verifier.check env.prog = .ok)
+    (hcomp : JitEmit.compileWithLayout env.prog haddr um false = .ok (c.code, locs, ex))
+    (hext : ExtOk c env haddr)
+    (hbase : c.codeBase + c.code.size < 2 ^ 63)
+    (hsent : c.retSentinel.toNat < c.codeBase ∨ c.codeBase + c.code.size ≤ c.retSentinel.toNat)
+    (he : Entry c m σ) (hlog : σ.log = []) (halign : m.stack.base % 16 = 0) (hroom : StackRoom σ m D)
+    (hdepth : depthOk c.clobber env D (entryState m σ um) fuel)
+    (hrun : jitRunC c.clobber env (entryState m σ um) fuel = .done r0 s') :
+    ∃ k σ', X86.run c σ k = .done r0 σ' ∧ MemRel σ'.mem s'.mem ∧
+      σ'.get 3 = σ.get 3 ∧ σ'.get 5 = σ.get 5 ∧ σ'.get 13 = σ.get 13 ∧ σ'.get 14 = σ.get 14 ∧ σ'.get 15 = σ.get 15 ∧
+      (σ'.get X86.RSP).toNat = (σ.get X86.RSP).toNat + 8 ∧
+      σ'.log.map (·.2) = s'.log.map (·.2) ∧ σ'.misaligned = σ.misaligned := by
+  have ht := targetsOk_of_check env.prog haddr hacc
+  have hv := compile_validates_partial env.prog haddr um false c.code locs ex hcomp hext.2 ht.1 (compile_size_lt _ _ _ _ _ _ _ hcomp ht.2) ht.2
+  exact jit_call_to_returnD env haddr um c { pcLocs := locs, exitLoc := ex } m σ D fuel r0 s' hv (coveredD_of_check env.prog hacc)
+    hext hbase hsent he hlog halign hroom hdepth hrun
+
+/-- the same for the fixed-metadata VM -/
+theorem C03_x86_jit_semantics_fixed (env : Env) (haddr : Nat → Option Nat) (c : X86.Cfg) (locs : Array Nat) (ex : Nat)
+    (m : Memory) (d e : Nat) (σ : X86.St) (D fuel : Nat) (r0 : BitVec 64) (s' : State)
+    (hacc : Verifier.check env.prog = .ok)
+    (hcomp : JitEmit.compileWithLayout env.prog haddr true true = .ok (c.code, locs, ex))
+    (hext : ExtOk c env haddr)
+    (hbase : c.codeBase + c.code.size < 2 ^ 63)
+    (hsent : c.retSentinel.toNat < c.codeBase ∨ c.codeBase + c.code.size ≤ c.retSentinel.toNat)
+    (he : EntryFixed c m d e σ) (hlog : σ.log = []) (halign : m.stack.base % 16 = 0) (hroom : StackRoom σ m D)
+    (hdepth : depthOk c.clobber env D (entryStateFixed m σ d e) fuel)
+    (hrun : jitRunC c.clobber env (entryStateFixed m σ d e) fuel = .done r0 s') :
+    ∃ k σ', X86.run c σ k = .done r0 σ' ∧ MemRel σ'.mem s'.mem ∧
+      σ'.get 3 = σ.get 3 ∧ σ'.get 5 = σ.get 5 ∧ σ'.get 13 = σ.get 13 ∧ σ'.get 14 = σ.get 14 ∧ σ'.get 15 = σ.get 15 ∧
+      (σ'.get X86.RSP).toNat = (σ.get X86.RSP).toNat + 8 ∧
+      σ'.log.map (·.2) = s'.log.map (·.2) ∧ σ'.misaligned = σ.misaligned := by
+  have ht := targetsOk_of_check env.prog haddr hacc
+  have hv := compile_validates_partial env.prog haddr true true c.code locs ex hcomp hext.2 ht.1 (compile_size_lt _ _ _ _ _ _ _ hcomp ht.2) ht.2
+  exact jit_call_to_return_fixedD env haddr c { pcLocs := locs, exitLoc := ex } m d e σ D fuel r0 s' hv (coveredD_of_check env.prog hacc)
+    hext hbase hsent he hlog halign hroom hdepth hrun
 
 end Rbpf
